@@ -198,7 +198,7 @@ impl Prop for C04 {
         }
         cov.sim_ns += w.sim_ns;
         cov.ops += w.ops;
-        RunResult { trace_hash: tr.hash(), violation: viol }
+        RunResult::new(tr.hash(), viol)
     }
 
     fn shrink(&self, scenario: &Value) -> Vec<Value> {
